@@ -122,6 +122,10 @@ func parseHexItem(s string) ([]byte, error) {
 //	#cfg <digest function> <digest hash>
 //	item <hex>                  (one line per item / chunk the source returns; "-" is empty)
 //	run <size> <digest hash> <code> <strict> ; <slice | reader j|s <term> | chunks <term>> ; <method>
+//
+// Methods may be prefixed (at any nesting level) by the decorations "wt" (Buffer.WithTask with a task
+// that succeeds) and "eh" (WithErrorHandler with a handler that passes every error through). "eh" is
+// not part of the model's language: such cases are checked by the oracle only.
 func parseCase(script []string) (*kase, error) {
 	k := &kase{}
 	var run []string
@@ -230,7 +234,7 @@ func validMethod(m []string) bool {
 		return true
 	case "cc":
 		return len(m) >= 3 && isNum(m[1], false) && validMethod(m[2:])
-	case "cs":
+	case "cs", "wt", "eh":
 		return validMethod(m[1:])
 	}
 	return false
